@@ -49,6 +49,9 @@ pub struct Case {
     pub rrt_step: f64,
     pub rrt_max_try: usize,
     pub cfgs: Vec<SimCfg>,
+    /// per-joint weights of the transition cost (None: the library's DEFAULT_TRANSITION_COSTS)
+    #[serde(default)]
+    pub coefficients: Option<[f64; 6]>,
 }
 
 fn pose_of(p: &[f64; 7]) -> Pose {
@@ -84,7 +87,7 @@ fn execute(robot: &Arc<KinematicsWithShape>, case: &Case, cfg: &SimCfg) -> SimOu
             check_step_m: c.check_step_m,
             check_step_rad: c.check_step_rad,
             max_transition_cost: c.max_transition_cost,
-            transition_coefficients: DEFAULT_TRANSITION_COSTS,
+            transition_coefficients: c.coefficients.unwrap_or(DEFAULT_TRANSITION_COSTS),
             linear_recursion_depth: c.recursion_depth,
             rrt: RRTPlanner { step_size_joint_space: c.rrt_step, max_try: c.rrt_max_try, debug: false },
             include_linear_interpolation: c.include_lin,
@@ -107,8 +110,8 @@ fn jdist(a: &[f64; 6], b: &[f64; 6]) -> f64 {
 fn pose_close(a: &Pose, b: &Pose) -> bool {
     (a.translation.vector - b.translation.vector).norm() <= POS_TOL && a.rotation.angle_to(&b.rotation) <= ANG_TOL
 }
-fn cost(a: &[f64; 6], b: &[f64; 6]) -> f64 {
-    (0..6).map(|i| (a[i] - b[i]).abs() * DEFAULT_TRANSITION_COSTS[i]).sum()
+fn cost(a: &[f64; 6], b: &[f64; 6], k: &[f64; 6]) -> f64 {
+    (0..6).map(|i| (a[i] - b[i]).abs() * k[i]).sum()
 }
 
 /// Distance of point p from segment [a, b], and the parameter of the closest point.
@@ -282,7 +285,7 @@ pub fn judge_path(case: &Case, oc: &OracleCell, path: &Path, trace: &Trace, ci: 
     // deliberately skips the intermediate configurations the bound was enforced on.
     if strict && case.include_lin {
         for i in (li + 1)..path.len() {
-            let c = cost(&path[i - 1].0, &path[i].0);
+            let c = cost(&path[i - 1].0, &path[i].0, &case.coefficients.unwrap_or(DEFAULT_TRANSITION_COSTS));
             if c > case.max_transition_cost * (1.0 + 1e-12) + 1e-15 {
                 push(
                     "e:transition-cost",
@@ -684,6 +687,7 @@ pub fn gen_case(seed: u64, shard: u64, run: u64, t: &Tier) -> Option<(Case, &'st
         rrt_step,
         rrt_max_try: *w.pick(&[1, 5, 30, 100, 300]),
         cfgs,
+        coefficients: if w.chance(0.5) { Some(std::array::from_fn(|_| w.range_f64(0.2, 6.0))) } else { None },
     };
     Some((case, layout))
 }
